@@ -264,6 +264,39 @@ def collection_cases(draw):
     return [subkind, colltype, draw(st.lists(st.text(alphabet="ABg", min_size=1, max_size=2), max_size=4, unique=True)), macro]
 
 
+def constctx_oracle(ctx):
+    """'always emits that encoding': the encoding of a constant depends on (constant, subconstruct, context), every time"""
+    def oracle(case):
+        value, signed, contexts = case
+        con = C.Const(value, C.BytesInteger(this._params.w, signed=signed, swapped=this._params.s))
+        st_ = C.Struct("m" / C.Const(value, C.IfThenElse(this._params.s, C.Int16ul, C.Int16ub)), "t" / C.Byte)
+        for i, (w, s) in enumerate(contexts):
+            want = call(C.BytesInteger(w, signed=signed, swapped=s).build, value)
+            got = call(con.build, None, w=w, s=s)
+            ctx.record([case, i], i > 0, ["constctx/build#%d" % min(i, 3)])
+            if want.ok != got.ok or (want.ok and want.value != got.value):
+                return Failure("C13/const/context-encoding", "Const(%d, BytesInteger(this._params.w, swapped=this._params.s)) call #%d with w=%d s=%r: build -> %r, the encoding there is %r | contexts=%s" % (
+                    value, i, w, s, got, want, contexts))
+            if want.ok:
+                back = call(con.parse, want.value, w=w, s=s)
+                if not (back.ok and back.value == value):
+                    return Failure("C13/const/context-encoding", "Const over a context-dependent field refuses its own encoding %s under w=%d s=%r (call #%d): %r" % (want.value.hex(), w, s, i, back))
+            if 0 <= value < 65536:
+                w2 = (C.Int16ul if s else C.Int16ub).build(value) + b"\x07"
+                g2 = call(st_.build, dict(t=7), w=w, s=s)
+                if not (g2.ok and g2.value == w2):
+                    return Failure("C13/const/context-encoding", "Struct(m/Const(%d, IfThenElse(this._params.s, Int16ul, Int16ub)), t) call #%d s=%r: build -> %r, expected %s" % (value, i, s, g2, w2.hex()))
+        return None
+    return oracle
+
+
+def campaign_constctx(ctx):
+    strat = st.tuples(st.integers(0, 70000), st.booleans(), st.lists(st.tuples(st.integers(1, 4), st.booleans()), min_size=2, max_size=5)).map(
+        lambda t: [t[0], t[1], [list(x) for x in t[2]]])
+    ctx.search(strat, constctx_oracle(ctx), ctx.budget(400, 6000))
+campaign_constctx.shards = (1, 4)
+
+
 def campaign_collections(ctx):
     ctx.search(collection_cases(), collection_oracle(ctx), ctx.budget(600, 8000))
 campaign_collections.shards = (2, 8)
@@ -670,7 +703,7 @@ def campaign_error_random(ctx):
 campaign_error_random.shards = (2, 8)
 
 
-CAMPAIGNS = {"const": campaign_const, "validators": campaign_validators, "collections": campaign_collections, "enum": campaign_enum, "flags": campaign_flags,
+CAMPAIGNS = {"const": campaign_const, "validators": campaign_validators, "collections": campaign_collections, "constctx": campaign_constctx, "enum": campaign_enum, "flags": campaign_flags,
              "mapping": campaign_mapping, "error_enum": campaign_error_enum, "error_random": campaign_error_random}
 
 
@@ -682,4 +715,6 @@ def replay(campaign, case):
         return error_chain_check(c, case[0], case[1])
     if campaign == "collections":
         return collection_oracle(c)(case)
+    if campaign == "constctx":
+        return constctx_oracle(c)(case)
     return {"const": const_oracle, "validators": validator_oracle, "enum": enum_oracle, "flags": flags_oracle, "mapping": mapping_oracle}[campaign](c)(case)
